@@ -526,7 +526,9 @@ class Protocol:
                 raise GitProtocolError(f"Invalid pkt-line length: {size:04x}")
             if self.report_activity:
                 self.report_activity(size, "read")
-            pkt_contents = read(size - 4)
+            # "0004" is an empty pkt-line; ReceivableProtocol.read() does not
+            # accept a zero-byte read.
+            pkt_contents = read(size - 4) if size > 4 else b""
         except ConnectionResetError as exc:
             raise HangupException from exc
         except OSError as exc:
